@@ -70,6 +70,13 @@ def main():
             if names and n not in names:
                 continue
             jobs.append(("seed", n, os.path.join(d, "patch.diff")))
+    if do_seeds:
+        # my own one-line mutants that guard a rule no agent-made seed exercises (no demo; must raise a new violation)
+        for pth in sorted(glob.glob(os.path.join(VERIF, "mutants", "*.diff"))):
+            n = os.path.basename(pth)
+            if names and n not in names and n[:-5] not in names:
+                continue
+            jobs.append(("seed", n, pth))
     if do_benign:
         for pth in sorted(glob.glob(os.path.join(VERIF, "benign", "*.diff"))):
             n = os.path.basename(pth)
